@@ -376,6 +376,34 @@ fn main() {
                 }
                 acc.case(true, o.class());
             }
+            // The same references with the tags WRAPPED over several lines and indented, so that the
+            // reported span ends on a later line at a smaller column than it starts: registration,
+            // render_str and the printing of whatever error comes back must not panic. (Seeded
+            // change C07-13 computed the underline of a report as end column - start column.)
+            {
+                let wrap = |s: &str| format!("          {}", s.replace('(', "(\n").replace(" />", "\n/>").replace(" | ", "\n| ").replace(" is ", "\nis "));
+                let wrapped: Vec<(String, String)> = r.templates.iter().map(|(n, s)| (n.clone(), wrap(s))).collect();
+                let wcase = || json!({"kind": r.kind, "position": r.position, "templates": wrapped, "entry": r.entry, "spelling": "tags wrapped over several lines, indented"});
+                let mut t4 = Tera::default();
+                let mut results: Vec<(&str, Result<tera::TeraResult<()>, String>)> =
+                    vec![("add_raw_templates", engine::guarded(|| t4.add_raw_templates(wrapped.iter().map(|(n, s)| (n.as_str(), s.as_str())))))];
+                if wrapped.len() == 1 {
+                    let t5 = Tera::default();
+                    results.push(("render_str", engine::guarded(|| t5.render_str(&wrapped[0].1, &bind(&[V::I64(1), V::I64(2), V::I64(3)]), true).map(|_| ()))));
+                }
+                for (call, res) in results {
+                    match res {
+                        Err(p) => acc.violation(format!("panic:{call}:wrapped:{}", r.kind), format!("{call} panicked: {p}"), wcase),
+                        Ok(Err(e)) => {
+                            if let Err(p) = engine::guarded(|| e.to_string()) {
+                                acc.violation(format!("panic:display:wrapped:{}", r.kind), format!("printing the error of {call} panicked: {p}"), wcase);
+                            }
+                        }
+                        Ok(Ok(())) => {}
+                    }
+                    acc.case(true, "wrapped-spelling");
+                }
+            }
             if item < 3 {
                 acc.sample(case);
             }
